@@ -105,12 +105,18 @@ func (c *vConc) onLock(site string, l interface{}, kind string) {
 	<-p.rel
 }
 
-func (c *vConc) onUnlock(l interface{}, kind string) {
+// onUnlock: the lock has just been released; the operation parks here too (a gate right after the critical section)
+func (c *vConc) onUnlock(site string, l interface{}, kind string) {
 	p := c.procOfCurrent()
 	if p == nil {
 		return
 	}
-	p.lks = append(p.lks, vLk{A: "rel", L: c.lockName(l), K: kind})
+	p.lks = append(p.lks, vLk{A: "rel", G: site, L: c.lockName(l), K: kind})
+	if atomic.LoadInt32(&p.freeRun) != 0 {
+		return
+	}
+	p.at <- site
+	<-p.rel
 }
 
 // settle waits until p is parked at a gate, has finished, or is parked somewhere else (a lock held by another
